@@ -333,7 +333,19 @@ impl Display for Format<'_, Formula> {
             Formula::AtomicFormula(a) => Format(a).fmt(f),
             Formula::UnaryFormula { formula, .. } => self.fmt_unary(Format(formula.as_ref()), f),
             Formula::QuantifiedFormula { formula, .. } => {
-                self.fmt_unary(Format(formula.as_ref()), f)
+                // A comparison starting with a variable needs parentheses: in `forall X Y = 3`
+                // the variable Y would be read as part of the list of quantified variables.
+                match formula.as_ref() {
+                    Formula::AtomicFormula(AtomicFormula::Comparison(c))
+                        if Format(c)
+                            .to_string()
+                            .starts_with(|c: char| c.is_ascii_uppercase() || c == '_') =>
+                    {
+                        self.fmt_operator(f)?;
+                        write!(f, "({})", Format(formula.as_ref()))
+                    }
+                    _ => self.fmt_unary(Format(formula.as_ref()), f),
+                }
             }
             Formula::BinaryFormula { lhs, rhs, .. } => {
                 self.fmt_binary(Format(lhs.as_ref()), Format(rhs.as_ref()), f)
